@@ -414,7 +414,11 @@ impl Ctx {
 }
 
 const FS_ATOMS: u64 = 4;
-const FS_DELAYS: [(f64, f64); 4] = [(3.0, 1.0), (10.0, 5.0), (10.0, 1.5), (2.5, 1.0)];
+/// (maximum length, time); the last three leave the range 1 <= t <= n-1 for which the language defines `delay`
+/// (the reference interpreter answers *undefined* there and C02 skips the case, but the backends, the generated Rust
+/// and the published layout are still compared with each other): t = n, t far above n, and a time that varies with
+/// `now` and crosses n (written as time -1.0 here)
+const FS_DELAYS: [(f64, f64); 7] = [(3.0, 1.0), (10.0, 5.0), (10.0, 1.5), (2.5, 1.0), (4.0, 4.0), (4.0, 100.0), (8.0, -1.0)];
 /// options per statement
 fn fs_radix() -> u64 {
     FS_HELPERS.len() as u64 * FS_ATOMS  // call helper(atom)
@@ -477,9 +481,10 @@ fn fs_stmt(c: &mut Ctx, mut o: u64) -> Option<()> {
         let (n, t) = FS_DELAYS[(o / 2) as usize];
         let a = c.atom(if o % 2 == 0 { 0 } else { 2 })?;
         let v = c.fresh();
-        c.ops.push(format!("delay({n},{},{t})", pe(&a, 0)));
+        let te = if t < 0.0 { bin("%", E::Now, num(n + 4.0)) } else { num(t) };
+        c.ops.push(format!("delay({n},{},{})", pe(&a, 0), pe(&te, 0)));
         let site = c.sites.next();
-        c.stmts.push(let_(&v, E::Delay(n, Box::new(a), Box::new(num(t)), site)));
+        c.stmts.push(let_(&v, E::Delay(n, Box::new(a), Box::new(te), site)));
         c.vars.push(v);
         return Some(());
     }
@@ -1388,6 +1393,44 @@ pub fn fu_decode(idx: u64) -> Option<Gen> {
         ),
     };
     Some(Gen { prog: Prog::default(), family: "FU", inputs: 1, ops: vec![frame_name.to_string(), use_name.to_string()], ft: None, text: Some(src) })
+}
+
+// ================================================================== FW: a long-lived closure forwarded through a parameter
+
+pub fn fw_count() -> u64 {
+    36
+}
+/// FW: one closure value lives in a global and is used by dsp on every sample; at global initialisation a helper
+/// receives it as a *parameter* and forwards that parameter 1..=3 times (to the scheduler with `@`, or by calling it),
+/// and the helper is invoked 1..=3 times. Nothing is allocated in steady state, so the numbers of live closures and
+/// heap objects must not change and the closure must stay usable.
+pub fn fw_decode(idx: u64) -> Option<Gen> {
+    let (forwards, calls, kind, how) = (1 + idx % 3, 1 + (idx / 3) % 3, (idx / 9) % 2, (idx / 18) % 2);
+    let mut src = String::from("let total = 0.0\n");
+    if kind == 0 {
+        src.push_str("fn mkinc(step) {\n  | | {\n    total = total + step\n  }\n}\nlet inc = mkinc(1.0)\n");
+    } else {
+        src.push_str("let inc = | | {\n  total = total + 1.0\n}\n");
+    }
+    src.push_str("fn fwd(f:()->()) {\n");
+    for k in 1..=forwards {
+        if how == 0 {
+            src.push_str(&format!("  f@(now + {k}.0)\n"));
+        } else {
+            src.push_str("  f()\n");
+        }
+    }
+    src.push_str("}\nfn kick() {\n");
+    for _ in 0..calls {
+        src.push_str("  fwd(inc)\n");
+    }
+    src.push_str("  0.0\n}\nlet started = kick()\nfn dsp(x) {\n  inc()\n  total\n}\n");
+    let ops = vec![
+        if kind == 0 { "closure from a factory, bound to a global" } else { "lambda bound to a global" }.to_string(),
+        format!("helper forwards its parameter {forwards}x by {}", if how == 0 { "scheduling it" } else { "calling it" }),
+        format!("helper invoked {calls}x at global initialisation"),
+    ];
+    Some(Gen { prog: Prog::default(), family: "FW", inputs: 1, ops, ft: None, text: Some(src) })
 }
 
 // ================================================================== structural features (tags)
